@@ -292,19 +292,78 @@ def build_harness(pid, harness_c, srcs=None, exclude=(), extra_cflags=(), extra_
 # ---------------------------------------------------------------------------------------
 # 4. running both sides
 
+def _run_proc(exe, argv, data, env, timeout, stall):
+    """Run one process over the given input.  Besides the overall time-out there is a STALL
+    watchdog: a process that prints no further observation for `stall` seconds is hanging
+    on a case and is killed (exit code 124), so a hang costs seconds, not the whole budget."""
+    import threading
+    e = dict(os.environ)
+    if env:
+        e.update(env)
+    p = subprocess.Popen([exe] + argv, stdin=subprocess.PIPE, stdout=subprocess.PIPE, stderr=subprocess.PIPE, env=e)
+    out_chunks, err_chunks = [], []
+    last = [time.time()]
+
+    def feed():
+        try:
+            p.stdin.write(data)
+            p.stdin.close()
+        except (BrokenPipeError, OSError):
+            pass
+
+    def rd_out():
+        while True:
+            b = p.stdout.read1(65536)
+            if not b:
+                break
+            out_chunks.append(b)
+            last[0] = time.time()
+
+    def rd_err():
+        while True:
+            b = p.stderr.read1(65536)
+            if not b:
+                break
+            err_chunks.append(b)
+    ths = [threading.Thread(target=f, daemon=True) for f in (feed, rd_out, rd_err)]
+    for t in ths:
+        t.start()
+    t0 = time.time()
+    killed = False
+    while p.poll() is None:
+        time.sleep(0.05)
+        now = time.time()
+        if now - t0 > timeout:
+            p.kill()
+            killed = 125       # the whole chunk took too long (e.g. many cases at their per-case watchdog)
+            break
+        if now - last[0] > stall:
+            p.kill()
+            killed = 124       # no output for a while: hanging on one case
+            break
+    p.wait()
+    for t in ths[1:]:
+        t.join(timeout=5)
+    out = b"".join(out_chunks).decode("utf-8", "replace")
+    err = b"".join(err_chunks).decode("utf-8", "replace")
+    return (killed if killed else p.returncode), out, err
+
+
 def _run_chunk(args):
     exe, argv, cases, env, per_case_timeout = args
-    """Run one process over a chunk; on a crash, mark the crashing case and go on."""
+    """Run one process over a chunk; on a crash or hang, mark the culprit case and go on."""
     obs = []
     i = 0
     crashes = 0
+    stall = max(15.0, 100 * per_case_timeout)
     while i < len(cases):
         data = ("\n".join(cases[i:]) + "\n").encode()
-        rc, out, err = run([exe] + argv, input=data, env=env,
-                           timeout=max(60 if crashes == 0 else 20, per_case_timeout * (len(cases) - i)))
+        rc, out, err = _run_proc(exe, argv, data, env, max(120, per_case_timeout * (len(cases) - i)), stall)
         lines = out.split("\n")
         if lines and lines[-1] == "":
             lines.pop()
+        elif lines and rc != 0:
+            lines.pop()          # a partial last line of a killed/crashed process
         if rc == 0 and len(lines) == len(cases) - i:
             obs.extend(lines)
             break
@@ -316,8 +375,11 @@ def _run_chunk(args):
             obs.extend(["ERR short-output"] * (len(cases) - len(obs)))
             break
         obs.extend(lines[:k])
+        if rc == 125:
+            obs.extend(["ERR chunk-timeout"] * (len(cases) - len(obs)))
+            break
         obs.append("CRASH " + crash_summary(rc, err))
-        crashes += 10 if rc == 124 else 1     # a hang costs a whole time-out: spend the budget faster
+        crashes += 5 if rc == 124 else 1     # a hang costs a stall period: spend the budget faster
         i = len(obs)
         if crashes > 50:
             obs.extend(["ERR too-many-crashes"] * (len(cases) - len(obs)))
@@ -468,7 +530,8 @@ def check(pid, tier, seed, replay=None):
         if c_obs is not None and drv and getattr(mod, "HAS_ORACLE", True):
             verdicts = run_sharded(drv, ["oracle"], ["%s | %s" % (c, o) for c, o in zip(cases, c_obs)],
                                    per_case_timeout=getattr(mod, "CASE_TIMEOUT", 0.05))
-            bad = [i for i, v in enumerate(verdicts) if not v.startswith("OK")]
+            # cases the harness never got to (ERR chunk-timeout / too-many-crashes) are not judged
+            bad = [i for i, v in enumerate(verdicts) if not v.startswith("OK") and not c_obs[i].startswith("ERR ")]
             cov["oracle_verdicts"] = len(verdicts)
         elif c_obs is not None and hasattr(mod, "py_oracle"):
             bad = [i for i, (c, o) in enumerate(zip(cases, c_obs)) if not mod.py_oracle(c, o)]
@@ -540,7 +603,10 @@ def check(pid, tier, seed, replay=None):
             if not (shrink and exe and drv):
                 return case
             cur = case
+            t_min = time.time()
             for _ in range(200):
+                if time.time() - t_min > (60 if tier == "quick" else 300):
+                    break            # minimisation is a convenience; never let it dominate the run
                 cands = list(shrink(cur))[:400]
                 if not cands:
                     break
